@@ -417,8 +417,9 @@ class CtxRecorder:
             mn = self._node.match(line)
             if mn and mn.group(2) is None:
                 nodes.append(num(mn.group(1)))
-            else:
-                extra += 1
+            elif mn and re.fullmatch(r'c\d+', mn.group(1)):
+                nodes.append(num(mn.group(1)))      # a concept node with attributes is still that node
+            # any other statement (attribute defaults, comments, subgraphs) is not an edge and not counted
         undirected = False
         for line in dot.source.split('\n'):
             if line.startswith('\tedge ['):
